@@ -476,3 +476,27 @@ Section Pipeline.
                    end;
        a_features := c_features c; a_default_cost := c_default_cost c; a_hook := c_hook c; a_pq := c_pq c |}.
 End Pipeline.
+
+Arguments x_query {Features Doc}. Arguments x_doc {Features Doc}. Arguments x_opname {Features Doc}.
+Arguments x_vars {Features Doc}. Arguments x_features {Features Doc}. Arguments x_ext {Features Doc}.
+Arguments Build_exec_request {Features Doc}.
+Arguments PVErrors {Doc Resp}. Arguments PVOk {Doc Resp}.
+Arguments EvFeatures {Features Ctx Doc}. Arguments EvValidate {Features Ctx Doc}.
+Arguments EvExecute {Features Ctx Doc}. Arguments EvSubscribe {Features Ctx Doc}.
+Arguments a_schema {Schema Features Ctx}. Arguments a_features {Schema Features Ctx}.
+Arguments a_default_cost {Schema Features Ctx}. Arguments a_hook {Schema Features Ctx}. Arguments a_pq {Schema Features Ctx}.
+Arguments Build_api {Schema Features Ctx}.
+Arguments features_of {Schema Features Ctx}.
+Arguments validate_execute {Schema Features Ctx Doc Resp}.
+Arguments HttpError {Resp}. Arguments HttpOK {Resp}.
+Arguments serve_graphql {Schema Features Ctx Doc Resp}.
+Arguments handle_init {Schema Features Ctx Doc}.
+Arguments WsData {Resp}. Arguments WsComplete {Resp}.
+Arguments handle_start {Schema Features Ctx Doc Resp}.
+Arguments WsNothing {Resp}. Arguments WsCloses {Resp}. Arguments WsAnswers {Resp}. Arguments WsNotStart {Resp}.
+Arguments serve_ws {Schema Features Ctx Doc Resp}.
+Arguments c_def {Features Ctx SchemaDef}. Arguments c_preprocess {Features Ctx SchemaDef}.
+Arguments c_features {Features Ctx SchemaDef}. Arguments c_default_cost {Features Ctx SchemaDef}.
+Arguments c_hook {Features Ctx SchemaDef}. Arguments c_pq {Features Ctx SchemaDef}.
+Arguments Build_config {Features Ctx SchemaDef}.
+Arguments api_of_config {Schema Features Ctx SchemaDef}.
